@@ -17,6 +17,9 @@ CLAIMED = {
  "C02": dict(cat="proof", tech="Lean 4 theorems (write_ok_partial, read_write, stream by induction over message sequences) about a code-shaped model of the header arithmetic + correspondence on real messages of every boundary length",
              text="Lean theorems over unbounded Nat lengths: for every body length the code can write, every expansion/direction and both reader entry points, the written frame is header++body with the prescribed header form (3-byte size exactly when a Wrath server message needs it), every reader parses back opcode and exactly the announced number of bytes, and any finite concatenation of written messages decodes to the same sequence (induction). The u16 overflow of Vanilla/TBC/client totals is proved as an abort theorem and listed as a known finding. The hand model is tied to the code by re-reading the shared constants and by a correspondence on real *_WARDEN_DATA messages at all boundary lengths, with surplus/trailing bytes, and on random message sequences.",
              note="Trusted: Lean kernel; hand transcription of traits/*.rs, trait_helpers, opcodes.rs header parsing and expected.rs (validated by correspondence); Rust harness; only *_WARDEN_DATA bodies are used for framing.", ref="§4 C02"),
+ "C20": dict(cat="proof", tech="Lean 4 + Mathlib theorems over the reals about the code's formulas (written once, generically) + correspondence of the Float instance with the implementation on all trigger tables and random boxes",
+             text="The code's formulas are written once over abstract arithmetic operations; instantiated with the real numbers, Lean/Mathlib proves that the box test is exactly containment in the box's own orthonormal frame with half extents + 2 yards (isWithinSquare_iff, frame_reconstruct), that the circle test is Euclidean distance < radius on the same map, that the distance helpers are the Euclidean distance, and that verify_trigger is consistent with containment for any table. The same definitions instantiated with Float are compared with the implementation on the triggers of all three tables and on random rotated boxes near faces, edges and corners (abstaining within 2e-3 of a boundary). Partial: f32 rounding and libm are not modelled.",
+             note="Trusted: Lean kernel, Mathlib; that Float/f32 evaluation follows the real-number formula away from boundaries (checked by correspondence, not proved); tools/triggers.py.", ref="§4 C20"),
 }
 NA_REASON = "not yet claimed: machinery for this property is still under construction (see DESIGN.md §7 order of construction)"
 
